@@ -127,3 +127,22 @@ if __name__ == "__main__":
         cmd_verify(sys.argv[2])
     elif c == "run":
         cmd_run(sys.argv[2], sys.argv[3:])
+
+
+def cmd_sweep():
+    """every seeded breaking change against the check of its property; every harmless one against all"""
+    import glob
+    rows = []
+    for d in sorted(glob.glob(os.path.join(VERIF, "seeded", "*"))):
+        name = os.path.basename(d)
+        meta = load(name)
+        if meta.get("kind", "").startswith(("harmless", "observable")):
+            continue
+        pid = meta.get("property")
+        cmd_run(name, [pid])
+        rows.append((name, pid, load(name)["checks"][pid]["exit"]))
+    print("SWEEP", " ".join("%s:%s" % (n, "caught" if e == 1 else "MISSED(%s)" % e) for n, p, e in rows))
+
+
+if __name__ == "__main__" and len(sys.argv) > 1 and sys.argv[1] == "sweep":
+    cmd_sweep()
